@@ -13,10 +13,12 @@ import Handlers.HC15
 import Handlers.HC16
 import Handlers.HC17
 import Handlers.HC19
+import Handlers.HC02
 
 namespace Handlers
 
 def all : List (String × (List Nat → Option String)) :=
   hC04 ++ hC06 ++ hC07 ++ hC08 ++ hC13 ++ hC14 ++ hC15 ++ hC16 ++ hC17 ++ hC19
+  ++ hC02
 
 end Handlers
